@@ -3,6 +3,7 @@ package mc
 import (
 	"encoding/json"
 	"fmt"
+	"runtime/debug"
 	"sync/atomic"
 
 	u "github.com/utreexo/utreexo"
@@ -91,7 +92,12 @@ func buildEncoding(s ref.State, set []int, enc string, junk int) (hs []Hash, pro
 
 // evalEncoding applies one encoding to one instance after replaying hist. It returns
 // (accepted by Verify, violations).
-func evalEncoding(ec encCase) (bool, []Violation) {
+func evalEncoding(ec encCase) (acc bool, vs []Violation) {
+	defer func() {
+		if r := recover(); r != nil {
+			acc, vs = true, []Violation{panicViolation("C05", r, debug.Stack(), mkCase("enc", ec), "")}
+		}
+	}()
 	if ec.Base > 0 {
 		return evalEncodingBase(ec)
 	}
